@@ -1,0 +1,60 @@
+//go:build verif
+
+/*
+ * Verification hooks (guard: build tag "verif"). The harness installs callbacks; when none is
+ * installed the hooks do nothing.
+ */
+
+package y
+
+import "sync/atomic"
+
+// VerifEnabled reports whether the verification hooks are compiled in.
+const VerifEnabled = true
+
+var (
+	verifPointFn atomic.Pointer[func(string)]
+	verifFileFn  atomic.Pointer[func(string, string)]
+	verifClock   atomic.Uint64
+)
+
+// VerifSetPointFn installs (or, with nil, removes) the callback run at every VerifPoint.
+func VerifSetPointFn(f func(name string)) {
+	if f == nil {
+		verifPointFn.Store(nil)
+		return
+	}
+	verifPointFn.Store(&f)
+}
+
+// VerifSetFileFn installs (or, with nil, removes) the callback run at every VerifFile.
+func VerifSetFileFn(f func(op, path string)) {
+	if f == nil {
+		verifFileFn.Store(nil)
+		return
+	}
+	verifFileFn.Store(&f)
+}
+
+// VerifSetClock sets the virtual unix time used for expiry decisions; 0 restores the real clock.
+func VerifSetClock(unix uint64) { verifClock.Store(unix) }
+
+// VerifPoint marks a named schedule / persistence point.
+func VerifPoint(name string) {
+	if f := verifPointFn.Load(); f != nil {
+		(*f)(name)
+	}
+}
+
+// VerifFile reports a file-level persistence event.
+func VerifFile(op, path string) {
+	if f := verifFileFn.Load(); f != nil {
+		(*f)(op, path)
+	}
+}
+
+// VerifNowUnix returns the virtual clock reading, if one is installed.
+func VerifNowUnix() (uint64, bool) {
+	v := verifClock.Load()
+	return v, v != 0
+}
